@@ -634,6 +634,9 @@ def run(res, tier):
         n6 = sc6(p, res, pairs)
         res.floor("SC-6", "conversion temporaries handed to nested operations", n6, 1)
         res.fn_count += res.extra.get("pairs_found", 0)
+    if tier == "thorough":
+        from . import witness
+        witness.check(res, ["W2ScratchCarving", "W4NoDanglingTemporaries"])
 
 
 # ------------------------------------------------------------------ SC-6
